@@ -47,19 +47,20 @@ def module_loader(repo):
 # ------------------------------------------------------------------------------------------------ solving
 def _solve_one(job):
     """Worker: returns (index, verdict, backend, seconds, reason)."""
-    idx, smt2, expect, smt2_filtered = job
+    idx, smt2, expect, weakened = job
     t0 = time.time()
     verdict, backend, reason = 'unknown', 'z3', ''
-    if smt2_filtered is not None:
-        # first attempt on the relevance-filtered hypothesis set (sound for `unsat`; any other answer is discarded)
+    for label, text, share in weakened or []:
+        # attempts on SUBSETS of the hypotheses (most recent ones / relevance-filtered): sound for `unsat`, any other
+        # answer is discarded and the full query below decides
         try:
             ctx = z3.Context()
             s = z3.Solver(ctx=ctx)
             s.set('timeout', Z3_TIMEOUT_MS)
-            s.set('rlimit', Z3_RLIMIT // 2)
-            s.from_string(smt2_filtered)
+            s.set('rlimit', int(Z3_RLIMIT * share))
+            s.from_string(text)
             if str(s.check()) == 'unsat':
-                return idx, 'unsat', 'z3-filtered', time.time() - t0, ''
+                return idx, 'unsat', 'z3-' + label, time.time() - t0, ''
         except Exception:  # noqa
             pass
     try:
@@ -97,13 +98,16 @@ def _solve_one(job):
 def discharge(obligations, nproc=None):
     jobs = []
     for i, ob in enumerate(obligations):
-        filt = None
+        weakened = []
         if ob.expect == 'unsat' and len(ob.hyps) > 40:
             try:
-                filt = ob.smt2(filtered=True)
+                for k, share in ((8, 0.04), (12, 0.05), (16, 0.06), (25, 0.08), (45, 0.12)):
+                    if k < len(ob.hyps):
+                        weakened.append(('tail%d' % k, ob.smt2(tail=k), share))
+                weakened.append(('filtered', ob.smt2(filtered=True), 0.5))
             except Exception:  # noqa
-                filt = None
-        jobs.append((i, ob.smt2(), ob.expect, filt))
+                pass
+        jobs.append((i, ob.smt2(), ob.expect, weakened))
     nproc = nproc or min(16, os.cpu_count() or 4)
     results = [None] * len(jobs)
     if not jobs:
